@@ -70,6 +70,14 @@ def sync_gosum():
 def go_build(pkg, name=None, tags="verif", race=False):
     """Build harness command `pkg` against /repo's current working tree."""
     sync_gosum()
+    hdir = HARNESS
+    if os.path.abspath(REPO) != "/repo":
+        # developer convenience: check a scratch worktree instead of /repo
+        hdir = os.path.join(scratch(), "harness-alt")
+        if not os.path.exists(hdir):
+            shutil.copytree(HARNESS, hdir)
+            gm = open(os.path.join(hdir, "go.mod")).read().replace("=> /repo", "=> " + os.path.abspath(REPO))
+            open(os.path.join(hdir, "go.mod"), "w").write(gm)
     out = os.path.join(scratch(), name or os.path.basename(pkg))
     cmd = ["go", "build", "-o", out]
     if tags:
@@ -77,7 +85,7 @@ def go_build(pkg, name=None, tags="verif", race=False):
     if race:
         cmd += ["-race"]
     cmd += ["./" + pkg]
-    p = subprocess.run(cmd, cwd=HARNESS, env=goenv(), capture_output=True, text=True)
+    p = subprocess.run(cmd, cwd=hdir, env=goenv(), capture_output=True, text=True)
     if p.returncode != 0:
         raise Infra("go build %s failed:\n%s%s" % (pkg, p.stdout, p.stderr))
     return out
